@@ -1,4 +1,5 @@
-"""Development check of the LMDB write-path model (not a property; not in the manifest)."""
+"""Development check of the LMDB write-path model coq/KVW (not a property; not in the manifest):
+all write-path suites with every oracle switched on."""
 from .. import kvw
 
 ASSUMPTIONS = ["py-lmdb behaves like shims/lmdb.py (ordered map, tracked cursors, copy-on-commit write transactions)"]
@@ -10,4 +11,5 @@ def run(tier, seed):
 
 
 def replay(payload):
-    return kvw.replay(payload)
+    kvw.PID[0] = "KVW"
+    return kvw.replay(payload, "KVW")
